@@ -13,7 +13,8 @@ from ..runner import CaseResult, case_key, explore, shrink
 ID = "C10"
 LEVEL = "exploration"
 RULE = ("Domain A: batches of 1-6 size-capped reaction dictionaries (unsolved MCS-prone corpus reactions, generated "
-        "reactions, already-solved rows, duplicates, drawn order) through MCSSearch.find, and each reaction again alone. "
+        "reactions, reactions whose searched side holds a stereoisomer or isotopologue pair, already-solved rows, "
+        "duplicates, drawn order) through MCSSearch.find, and each reaction again alone. "
         "Oracle A: the multiset of canonical sorted_reactants equals the multiset of molecules on the carbon-richer side "
         "(products when the carbon label is 'reactants'); every non-empty mcs_results[i] is a SMARTS that "
         "HasSubstructMatch in sorted_reactants[i]; list lengths agree; mcs['id'] == the row's id; solved rows get no MCS "
@@ -276,7 +277,7 @@ def check_selection(case, spec=None):
 
 @st.composite
 def search_case(draw):
-    rx = st.one_of(gen.mcs_prone_reaction(25, 4), gen.mcs_prone_reaction(25, 4),
+    rx = st.one_of(gen.mcs_prone_reaction(25, 4), gen.mcs_prone_reaction(25, 4), gen.near_duplicate_pair_reaction(),
                    gen.any_reaction(max_heavy=25, max_mols=4, weights=(4, 3, 1, 2)).filter(
                        lambda t: oracle.reaction_closed_shell(t[0])))
     items = draw(st.lists(rx, min_size=1, max_size=6))
